@@ -451,6 +451,46 @@ class FakeConn:
         self.mangle: Optional[Callable[[bytes], bytes]] = None
         self.closed_by_me = False
         self.recv_after_eof = 0
+        self.was_reset = False         # data was sent to a peer that had closed: RST
+        self.observer: Optional[Callable[[bytes], None]] = None
+
+    def makefile(self, mode='r', *a, **k):
+        """socket.makefile: a buffered reader that takes whatever has arrived and
+        keeps what it has not handed out in ITS OWN buffer (lost with it)."""
+        conn = self
+
+        class _Reader:
+            def __init__(self):
+                self.buf = b''
+
+            def readline(self, *a_):
+                while b'\n' not in self.buf:
+                    chunk = conn.recv(8192)
+                    if not chunk:
+                        break
+                    self.buf += chunk
+                k_ = self.buf.find(b'\n')
+                line, self.buf = (self.buf, b'') if k_ < 0 else (self.buf[:k_ + 1], self.buf[k_ + 1:])
+                return line if 'b' in mode else line.decode('utf-8')
+
+            def read(self, n=-1):
+                while n < 0 or len(self.buf) < n:
+                    chunk = conn.recv(8192)
+                    if not chunk:
+                        break
+                    self.buf += chunk
+                out, self.buf = (self.buf, b'') if n < 0 else (self.buf[:n], self.buf[n:])
+                return out if 'b' in mode else out.decode('utf-8')
+
+            def close(self):
+                pass
+
+            def __enter__(self):
+                return self
+
+            def __exit__(self, *e):
+                return False
+        return _Reader()
 
     def recv(self, n: int, *a) -> bytes:
         if not self.rx.buf and not self.rx.closed:
@@ -469,12 +509,20 @@ class FakeConn:
     def sendall(self, data: bytes) -> None:
         if self.closed_by_me:
             raise OSError('send on a closed socket')
+        if self.was_reset:
+            raise BrokenPipeError(32, 'Broken pipe')
         if self.mangle is not None:
             data = self.mangle(data)
             if data is None:
                 return
+        if self.observer is not None:
+            self.observer(bytes(data))
         self.sent.append((self.s.next_seq(), bytes(data)))
         self.tx.buf.extend(data)
+        peer = getattr(self, 'peer', None)
+        if peer is not None and peer.closed_by_me:
+            # the peer has gone: the data is answered with a reset
+            self.was_reset = True
 
     def send(self, data: bytes) -> int:
         self.sendall(data)
@@ -485,6 +533,8 @@ class FakeConn:
         self.tx.closed = True
 
     def shutdown(self, *a) -> None:
+        if self.was_reset:
+            raise OSError(107, 'Transport endpoint is not connected')
         self.tx.closed = True
 
     def settimeout(self, *a) -> None:
